@@ -33,6 +33,26 @@ def _lh_class():
                 return ("as", v, ty.replace(" ", ""))
             return progx.InlineHooks.cast(self, v, ty, e)
 
+        def call(self, p, args, e):
+            segs = p.split("::")
+            if len(segs) >= 2 and segs[-1] == "from" and len(args) == 1 and isinstance(args[0], tuple) and args[0] and args[0][0] in ("key", "arg", "as"):
+                return ("as", args[0], segs[-2])          # a widening conversion is a cast to that type
+            return progx.InlineHooks.call(self, p, args, e)
+
+        def mcall(self, recv, m, args, e, ev):
+            if m in ("into",) and not args and isinstance(recv, tuple) and recv and recv[0] in ("key", "arg", "as"):
+                return recv
+            if m == "binary_search_by_key" and len(args) == 2 and isinstance(recv, tuple) and recv[0] == "list" and all(
+                    isinstance(x, tuple) and x and x[0] == "row" for x in recv[1]):
+                # on a table sorted by the key (an obligation the caller of this evaluation adds): Ok(index of the row with that key) / Err(_)
+                self.binary_search = True
+                for i, row in enumerate(recv[1]):
+                    k = ev.apply(args[1], [row])
+                    if lh_binary(self, "==", k, args[0], e) is True:
+                        return ("ok", i)
+                return ("err", ("sym", "INSERTION_POINT"))
+            return progx.InlineHooks.mcall(self, recv, m, args, e, ev)
+
         def binary(self, op, a, b, e):
             r = lh_binary(self, op, a, b, e)
             if r is not NotImplemented:
